@@ -578,6 +578,9 @@ def _run(spec):
 
     def V(what, msg, blk=None, **kw):
         c = cls if blk is None else cls.split('|in=')[0] + '|blk=' + blk
+        if what.startswith('raises_'):
+            # the exception slug pins the root cause: keep only option set and output classes
+            c = cls.split('|')[0] + '|out=' + cls.split('|out=')[1]
         d = {'sig': 'C34:%s:%s' % (what, c), 'case': case, 'what': what,
              'msg': '%s %s %s shapes=%s opt=%s: %s' % (
                  what, w, [L.render(t) for t in ref['trees']], spec['shapes'], opt, msg),
